@@ -201,6 +201,9 @@ def _model(case, ctx):
 
 
 def _features(m, spec, desc, ctx, rng, feat):
+    if desc['seed'][2] % 2:
+        from gen.poke import poke
+        poke(m, ctx)
     ns, nc = spec.n_spikes, spec.n_channels
     F = spec.pc_features                      # (nrows, npcs, nloc)
     npcs, nloc = F.shape[1], F.shape[2]
